@@ -1,7 +1,7 @@
 (* C15: every sample lands in exactly one grid bin; grid files round-trip
    (statements only; proofs in GridProofs.v and GridIOProofs.v). *)
 From Coq Require Import ZArith List Bool Reals Lia Lra.
-From CV Require Import Base.Num Base.RNum C15.GridModel C15.GridProofs C15.GridIOModel C15.GridIOProofs C15.GridOpsModel C15.GridOpsProofs.
+From CV Require Import Base.Num Base.RNum C15.GridModel C15.GridProofs C15.GridIOModel C15.GridIOProofs C15.GridOpsModel C15.GridOpsProofs C15.TiModel C15.TiProofs.
 Import ListNotations.
 
 (* The bin index computed by value_to_bin_scalar is the unique i with
@@ -436,3 +436,22 @@ Theorem C15_bin_distance_sign : forall per lower upper w x acc,
   ((0 <= bin_distance Rops per lower upper w x acc)%R <-> (0 <= acc)%R /\ all_inside per lower upper x).
 Proof. exact bin_distance_sign. Qed.
 Print Assumptions C15_bin_distance_sign.
+
+(* ===================== the TI sample grids of biases (colvarbias_ti, TiModel.v) =====================
+   ti_bin always holds the bin of the values of the last step -- whether or not a sample was collected at that step and
+   whether or not the values were on the grid -- so that under the lagged convention the next force sample is attributed to
+   the bin of the step it belongs to, also right after an excursion off the grid. *)
+Theorem C15_ti_bin_tracks_values : forall (c : hist_cfg (T := R)) (same : bool) (st : ti_state (T := R)) (h : list ti_in) (i : ti_in),
+  ts_bin (ti_run Rops same c st (h ++ [i])) = bins Rops (h_lower c) (h_width c) (ti_x i).
+Proof. exact ti_bin_tracks. Qed.
+Print Assumptions C15_ti_bin_tracks_values.
+
+(* Every element of ti_count holds exactly the number of collected samples whose bin -- that of the values of the current
+   step with same-step forces, of the previous step with lagged forces -- is on the grid and has that address: a sample off
+   the grid is dropped, the samples after it are not (all trajectories, both timing conventions). *)
+Theorem C15_ti_counts : forall (c : hist_cfg (T := R)) (same : bool) (h : list ti_in) (st : ti_state (T := R)) (a : nat),
+  all_pos (h_nx c) -> length (ts_count st) = Z.to_nat (ntot 1 (h_nx c)) ->
+  nth a (ts_count (ti_run Rops same c st h)) 0%R
+  = (nth a (ts_count st) 0 + lsum (map (count_at c a) (ti_samples Rops same c (ts_bin st) h)))%R.
+Proof. intros c same h st a Hp. apply ti_counts. exact Hp. Qed.
+Print Assumptions C15_ti_counts.
